@@ -575,7 +575,7 @@ class Check:
         self.selftest = []
         patches = sorted(glob.glob(os.path.join(VERIF, "seeded", self.prop_id + "-m*", "patch.diff"))) + \
             sorted(glob.glob(os.path.join(VERIF, "benign", self.prop_id + "-b*", "patch.diff")))
-        for patch in patches:
+        def one(patch):
             name = os.path.basename(os.path.dirname(patch))
             benign = os.path.basename(os.path.dirname(os.path.dirname(patch))) == "benign"
             tmp = tempfile.mkdtemp(prefix="aovc_selftest_")
@@ -588,8 +588,7 @@ class Check:
                     p = subprocess.run(["patch", "-p1", "-s", "-i", patch], cwd=tmp, capture_output=True, text=True)
                 if p.returncode != 0:
                     rec.update(result="patch does not apply to the current tree (skipped)")
-                    self.selftest.append(rec)
-                    continue
+                    return rec, benign
                 env = dict(os.environ, AOVC_REPO=tmp, AOVC_NO_EVIDENCE="1", AOVC_NO_SELFTEST="1")
                 q = subprocess.run([sys.executable, os.path.join(VERIF, "checks", self.prop_id + ".py"), "--tier", "quick"],
                                    cwd=VERIF, env=env, capture_output=True, text=True, timeout=3600)
@@ -601,8 +600,16 @@ class Check:
                 rec.update(result="self-test error: %r" % ex)
             finally:
                 shutil.rmtree(tmp, ignore_errors=True)
+            return rec, benign
+        from concurrent.futures import ThreadPoolExecutor
+        with ThreadPoolExecutor(max_workers=4) as ex:          # (each run is a subprocess; four at a time keep the solver budgets honest on 16 cores)
+            results = list(ex.map(one, patches))
+        for rec, benign in results:
+            name = rec["change"]
             self.selftest.append(rec)
-            if benign:
+            if "result" in rec:
+                print("SELFTEST change=%s -> %s" % (name, rec["result"]))
+            elif benign:
                 print("SELFTEST behaviour-preserving change=%s -> exit %s%s" % (name, rec.get("exit"), "  FALSE ALARM" if rec.get("reported") else ""))
             else:
                 print("SELFTEST change=%s -> %s" % (name, "reported (exit 1)" if rec.get("reported") else "NOT reported: %s" % rec))
